@@ -46,7 +46,25 @@ func (w *World) runOracles(pre *Snapshot, op Op, res *StepResult, post *Snapshot
 		for _, b := range binds {
 			if !b.A.Foreign {
 				w.Tag("bind")
+				if pa := pre.Apps[b.A.App]; pa != nil {
+					if n, ok := pa.Reservations[b.A.Key]; ok {
+						w.Tag("bind-reserved-ask")
+						if n != b.Node {
+							w.Tag("bind-reserved-ask-on-other-node")
+						}
+					}
+				}
 			}
+		}
+		preR, postR := 0, 0
+		for _, n := range pre.Nodes {
+			preR += len(n.Reservations)
+		}
+		for _, n := range post.Nodes {
+			postR += len(n.Reservations)
+		}
+		if postR > preR {
+			w.Tag("reservation-made")
 		}
 	}
 	on := func(p string) bool { return w.Checks[p] || w.Checks["*"] }
@@ -588,7 +606,7 @@ func (w *World) oracleC09(pre *Snapshot, op Op, post *Snapshot, decision bool) {
 		for _, n := range pre.Nodes {
 			preCount += len(n.Reservations)
 		}
-		if postCount > preCount {
+		if postCount > preCount && !decision {
 			w.Tag("reservation-made")
 		}
 		if postCount < preCount {
